@@ -31,7 +31,7 @@ fi
 DEMO=$(ls "$OUT"/*_test.go 2>/dev/null | head -1)
 [ -n "$DEMO" ] || { say "VERDICT $NAME: no demonstration test"; exit 3; }
 if [ "${SKIP_WT:-0}" != 1 ]; then
-PKGDIR=$(grep -m1 -oE '(\./)?[a-z/]+/?' "$OUT/DEMO_CMD.txt" 2>/dev/null | grep -E 'dagsync|announce|pcache|metadata|dhash|find|ingest|maurl|mautil|rwriter|apierror' | head -1 | sed 's#^\./##; s#/\.\.\.$##; s#/$##')
+PKGDIR=$(grep -m1 -oE '(\./)?[a-z0-9_/]+/?' "$OUT/DEMO_CMD.txt" 2>/dev/null | grep -E 'dagsync|announce|pcache|metadata|dhash|find|ingest|maurl|mautil|rwriter|apierror' | head -1 | sed 's#^\./##; s#/\.\.\.$##; s#/$##')
 [ -n "$PKGDIR" ] || PKGDIR=$(head -1 "$DEMO" | awk '{print $2}' | sed 's/_test$//')
 say "== $NAME: property $ID, demo package dir: $PKGDIR"
 
